@@ -23,7 +23,8 @@ RULE = ('faults = positions/values at which a pipeline function raises (any oper
         'options, num_threads 0..2 and error skipping on/off; oracle = reference interpreter run on the stream with exactly the '
         'failing elements removed (skipping on) or up to the first failing element (skipping off: original exception in the cause '
         'chain, nothing delivered out of order, sinks closed, helper threads ended); non-trivial = a failing element that is not '
-        'the last one together with >= 2 operators, a batching option or threads; distinct = distinct canonical case JSON')
+        'the last one together with >= 2 operators, a batching option or threads; distinct = distinct canonical case JSON'
+        '; also: failing source reads under operator programs (iterator sources, threads), abc.Sequence / list-subclass / index-only sources, runs of 127..150 consecutive failing reads, unreadable input batches under re-batching; after an error next() must not hand out further elements')
 ASSUMPTIONS = [
     'every exception raised by a pipeline function is skippable (TreeFn wraps it into ValueError "Failed to call"); an error while '
     'fetching inputs (missing key) or a non-ValueError/TypeError from the data source is not',
